@@ -1,13 +1,20 @@
 (* C11 -- moves into rule draws are scored as draws.
-   PROVED on the model at the root level (C11_root_all_drawn): for every stop predicate and fuel, an empty table (new or
-   cleared), a root satisfying the invariant whose every generated move leads to a position that is rule-drawn as the child node
-   sees it (half-move clock >= 100, or its key occurs again in the look-back window of halfmoves + 1 entries of the history the
-   root hands down), and no successor key equal to the root's key (`no_clash`: the only entries written during such a search are
-   the root's own; this excludes a cut-off from them), every REPORTED iteration of depth >= 2 carries the score -DRAW_SCORE and
-   the answer is a legal move.  Iteration 1 is excluded by the property text and rightly so (its children sit at the horizon and
-   the quiescence search has no draw test).  Node-level lemmas: C11_draw_by_clock, C11_draw_by_repetition, C11_root_loop_all_draw. *)
+   PROVED on the model at the root level, in two forms.
+   (a) C11_root_all_drawn_any_table: for EVERY table with bounded scores (so in particular the empty table of the property text,
+   with no condition on key clashes, and equally a table full of misleading entries), every history and depth limit d >= 1 (and the
+   unlimited search), a root satisfying the invariant whose every generated move leads to a position that is rule-drawn as the child
+   node sees it (half-move clock >= 100, or its key occurs again in the look-back window of halfmoves + 1 entries of the history the
+   root hands down): every reported iteration of depth >= 2 carries the score -DRAW_SCORE and the answer is a legal move.  Reason: a
+   rule-drawn child searched with an open window returns the draw score before anything else can happen to it; on a zero window a
+   table entry may be believed instead, but such a score either fails low (ignored: the best stays at the first move's draw score) or
+   is searched again with the open window.  C11_misleading_table_run is a run with every successor's key holding a bounded, deep,
+   exact entry of -900000.
+   (b) C11_root_all_drawn (earlier): for every stop predicate -- interrupted searches included -- from an empty table and with no
+   successor key equal to the root's key.
+   Iteration 1 is excluded by the property text and rightly so (its children sit at the horizon and the quiescence search has no draw
+   test).  Node-level lemmas: C11_draw_by_clock, C11_draw_by_repetition, C11_root_loop_all_draw. *)
 From Coq Require Import NArith ZArith List Bool.
-From Rawr Require Import Consts Bits Magic Position MoveGen MakeMove Eval TT Search MakeStages SearchFacts2 Closure MenCount EpRetro SearchBound RootDraw.
+From Rawr Require Import Consts Bits Magic Position MoveGen MakeMove Eval TT Search MakeStages SearchFacts2 Closure MenCount EpRetro SearchBound RootDraw RootDrawAny.
 Import ListNotations.
 Local Open Scope Z_scope.
 
@@ -53,8 +60,37 @@ Proof. exact root_all_drawn. Qed.
 Theorem C11_new_and_cleared_tables_are_empty : forall mb t, table_empty (tt_new mb) /\ table_empty (tt_clear t).
 Proof. intros mb t. split; [apply table_empty_new|apply table_empty_clear]. Qed.
 
+Theorem C11_root_all_drawn_any_table : forall d fuel p hist tt r,
+  InvSR p -> TBnd tt -> Z.of_nat fuel <= 2 * MATE_SCORE -> legal_moves p <> [] ->
+  (forall m, In m (legal_moves p) -> rule_drawn (makemove true p m) hist) ->
+  1 <= d ->
+  root (stop_of (LDepth d)) fuel p hist tt = Some r ->
+  (forall i, In i (rr_infos r) -> 2 <= i_depth i -> i_score i = - DRAW_SCORE)
+  /\ exists m, rr_best r = Some m /\ In m (legal_moves p).
+Proof. exact root_all_drawn_any_table. Qed.
+
+Theorem C11_root_all_drawn_any_table_unlimited : forall fuel p hist tt r,
+  InvSR p -> TBnd tt -> Z.of_nat fuel <= 2 * MATE_SCORE -> legal_moves p <> [] ->
+  (forall m, In m (legal_moves p) -> rule_drawn (makemove true p m) hist) ->
+  root (stop_of LNever) fuel p hist tt = Some r ->
+  (forall i, In i (rr_infos r) -> 2 <= i_depth i -> i_score i = - DRAW_SCORE)
+  /\ exists m, rr_best r = Some m /\ In m (legal_moves p).
+Proof. exact root_all_drawn_any_table_unlimited. Qed.
+
+(* K+R v K, clock 99: all 15 moves bring the clock to 100; every successor's key holds an exact depth-100 entry of -900000 *)
+Theorem C11_misleading_table_run :
+  TBnd ex_table /\
+  match root (stop_of (LDepth 4)) 50 RootDraw.ex_pos [hash RootDraw.ex_pos] ex_table with
+  | Some r => map (fun i => (i_depth i, i_score i)) (rr_infos r)
+  | None => []
+  end = [(1, 512); (2, 50); (3, 50); (4, 50)].
+Proof. exact (conj ex_table_TBnd ex_run_poisoned). Qed.
+
 Print Assumptions C11_draw_by_clock.
 Print Assumptions C11_draw_by_repetition.
 Print Assumptions C11_root_loop_all_draw.
 Print Assumptions C11_root_all_drawn.
 Print Assumptions C11_new_and_cleared_tables_are_empty.
+Print Assumptions C11_root_all_drawn_any_table.
+Print Assumptions C11_root_all_drawn_any_table_unlimited.
+Print Assumptions C11_misleading_table_run.
